@@ -313,11 +313,11 @@ def answer (ts : List String) : String :=
     | _ => "bad-op"
   | "pipe" :: rest =>
     match runOps Mdns.Store.empty rest with
-    | some (s, ["R", hex, now]) =>
+    | some (s, ["PR", hex, now]) =>
       match bytesOfHex hex, now.toNat? with
       | some d, some now => showOut showReplyBytes (Mdns.handleResponder s d now)
       | _, _ => "bad-op"
-    | some (s, "D" :: ts) =>
+    | some (s, "PD" :: ts) =>
       match (pPair pName pName) ts with
       | some ((service, full), [hex, now]) =>
         match bytesOfHex hex, now.toNat? with
